@@ -19,6 +19,7 @@ const (
 	tkNot
 	tkTo
 	tkTerm
+	tkErr // text the lexer cannot tokenize: no grammar rule consumes it, so no accepted tree derives it
 )
 
 const (
@@ -77,6 +78,8 @@ func shapeTok(buf []byte, sh shape) ([]byte, dtok) {
 		return buf, dtok{kind: tkTerm, tv: tvSingleQuoted, s: raw[1 : len(raw)-1], raw: raw}
 	case "re0", "re1":
 		return buf, dtok{kind: tkTerm, tv: tvRegexp, s: raw, raw: raw}
+	case "bad":
+		return buf, dtok{kind: tkErr, raw: raw}
 	}
 	panic("unknown shape " + sh.name)
 }
@@ -270,10 +273,16 @@ func (d *deriver) derives(v any, i, j int) bool {
 		if j-i < 4 || !d.columnIs(e.Left, d.t[i]) || !symIs(d.t[i+1], ':') || !symIs(d.t[i+2], want) {
 			return false
 		}
+		// field:>v: the operand is one term (possibly inside redundant parentheses), not a sub-query
+		vs := i + 3
 		if e.Op == expr.GreaterEq || e.Op == expr.LessEq {
-			return j-i >= 5 && symIs(d.t[i+3], '=') && d.derives(e.Right, i+4, j)
+			if j-i < 5 || !symIs(d.t[i+3], '=') {
+				return false
+			}
+			vs = i + 4
 		}
-		return d.derives(e.Right, i+3, j)
+		term, end, ok := d.fieldSpan(vs, j)
+		return ok && end == j && d.leafIs(e.Right, d.t[term])
 	case expr.Range:
 		b, ok := e.Right.(*expr.RangeBoundary)
 		if !ok || b == nil || j-i != 7 {
